@@ -497,3 +497,127 @@ PROPS["C19"] = dict(
     outside=["arbitrary *string* keys on IterationHistory (the dict hash realises a symbolic string: CrossHair 'Not confirmed'), replaced by an enumerated list of unknown keys",
              "the noisy swap block inside the loop (history re-estimation through the GP)", "'recorded x was evaluated' follows from the incumbent invariant (I_inc) proved by the step harnesses"],
     time_limit=dict(quick=900, thorough=5400))
+
+# ------------------------------------------------------------------------------------------------ C18
+def es_jobs(tier, cons=(None, "bool")):
+    jobs = []
+    for D, mu in (((1, 1), (1, 2), (2, 1)) if tier == "quick" else ((1, 1), (1, 2), (1, 3), (2, 1), (2, 2))):
+        for c in cons:
+            if tier == "quick" and D == 2 and c:
+                continue
+            jobs.append(J("h_es:HES", D=D, mu=mu, cons=c, M=0))
+    jobs.append(J("h_es:HES", D=1, mu=(1 if tier == "quick" else 2), cons=None, M=1))
+    for n in (2, 3):
+        jobs.append(J("h_es:HHG", n=n, gamma="opt"))
+        jobs.append(J("h_es:HHG", n=n, gamma="sym"))
+    return jobs
+
+
+C18_LABELS = {"empty_search_set_only_without_survivors", "returned_value_is_lowest_acquisition_of_survivors", "returned_point_is_candidate_with_that_value",
+              "candidates_inside_mesh_rounded_box", "candidates_oracle_feasible", "two_generations",
+              "probabilities_sum_to_one", "each_probability_at_least_exploration_floor_at_most_one", "chosen_index_valid_and_strategy_invoked",
+              "search_at_most_one_evaluation", "hedge_called_once", "evaluated_point_is_projected_gridded_candidate", "evaluated_point_in_search_box"}
+PROPS["C18"] = dict(
+    jobs=lambda tier: es_jobs(tier) + ss_jobs(tier, levels=(0, 1)), labels=C18_LABELS, required=sorted(C18_LABELS),
+    bounds=dict(quick="ES search (ES-ell initialisation, real filter and gridding): mu=lambda in {1,2} for D=1, 1 for D=2, two generations, symbolic normal draws / acquisition values / constraint oracle; hedge: 2 and 3 strategies, symbolic scores, exploration floor concrete and symbolic in (0,1/n]; search step as C03",
+                thorough="mu up to 3 (D=1) and 2 (D=2)"),
+    outside=["the rank-selection mask for (mu,lambda) up to a few hundred (a concrete enumeration with nothing symbolic)", "ES-wcm's covariance initialisation (scipy eigh)",
+             "probabilities summing to 1-eps in floating point"],
+    time_limit=dict(quick=900, thorough=5400))
+
+# ------------------------------------------------------------------------------------------------ C16
+def rf_jobs(tier):
+    jobs = []
+    for noise in (False, True):
+        for N, mf in (((10, 4), (12, 3)) if tier == "quick" else ((10, 4), (12, 3), (16, 6), (30, 9))):
+            jobs.append(J("h_rf:HRobust", N=N, D=2, noise=noise, max_fail=mf))
+        jobs.append(J("h_rf:HRobust", N=5, D=1, noise=noise, max_fail=2, symY=True))
+        if tier == "thorough":
+            jobs.append(J("h_rf:HRobust", N=6, D=2, noise=noise, max_fail=2, symY=True))
+        jobs.append(J("h_rf:HUpdate", noise=noise))
+    jobs.append(J("h_rf:HInitRetry", max_fail=6))
+    return jobs
+
+
+C16_LABELS = {"linalg_failures_do_not_abort", "attempt_arguments_row_consistent", "attempt_rows_are_training_rows", "noise_column_kept_iff_noise",
+              "retries_until_success", "success_flag_reports_failures", "exit_flag_reports_failed_update", "failed_update_restores_previous_model",
+              "training_set_is_logged_data"}
+PROPS["C16"] = dict(
+    jobs=rf_jobs, labels=C16_LABELS, required=sorted(C16_LABELS), exc_is_violation=True,
+    bounds=dict(quick="robust refit: every schedule of up to 4 consecutive LinAlgErrors (one fresh Bool per attempt), 10-12 concrete training rows with and without a noise column, and 5 rows with symbolic values (drop decisions symbolic) for 2 failures; initial-training retry loop (AST cut): up to 6 failures; posterior update fallback of local_gp_fitting",
+                thorough="up to 9 consecutive failures (30 rows), symbolic values for D=2"),
+    outside=["ten failures in a row (res unbound)", "'all other guarantees continue to hold for that run' only in the assume/guarantee sense: every other harness stubs GP calls with arbitrary outputs",
+             "numerical behaviour of gpyreg itself"],
+    time_limit=dict(quick=600, thorough=3600))
+
+# ------------------------------------------------------------------------------------------------ C20
+def opt_jobs(tier):
+    from vf.harness.h_opt import option_names
+    jobs = []
+    names = option_names()
+    for nm in names:
+        jobs.append(J("h_opt:HOPT", name=nm, D=2, D2=3))
+        if tier == "thorough":
+            jobs.append(J("h_opt:HOPT", name=nm, D=1, D2=2))
+            jobs.append(J("h_opt:HOPT", name=nm, D=3, D2=1))
+    for bad in ("tol_funn", "maxiter", "Display", ""):
+        jobs.append(J("h_opt:HOPT", name=None, bad=bad, D=2))
+    for D in (1, 2):
+        jobs.append(J("h_bc:HBC", D=D, pat=_pat(D), spell={}, nonlinear=False, seed="sym"))
+        jobs.append(J("h_bc:HBC", D=D, pat=_pat(D, x0=None), spell={v: "flat" for v in ("lb", "ub", "plb", "pub")}, nonlinear=False))
+    return jobs
+
+
+C20_LABELS = {"user_value_takes_effect_exactly", "user_value_recorded_as_protected", "caller_dict_unchanged", "dependent_defaults_follow_user_value",
+              "other_options_keep_documented_defaults", "later_instance_sees_its_own_defaults", "earlier_instance_unchanged_by_later_construction",
+              "unknown_option_name_rejected", "caller_arrays_unchanged", "caller_options_unchanged"}
+PROPS["C20"] = dict(
+    jobs=opt_jobs, labels=C20_LABELS, required=sorted(C20_LABELS),
+    bounds=dict(quick="every option name found in the two .ini files of the current tree, one symbolic override value each (non-zero real in [2^-20, 2^20]), dimensions (2, then a second instance with 3); 4 unknown names; constructor D<=2 for the caller-array clause",
+                thorough="dimension pairs (1,2), (2,3), (3,1)"),
+    outside=["subsets of several simultaneous overrides", "arbitrary unknown *string* names (set hashing realises a symbolic string)", "orders of constructing/running more than two instances",
+             "running (optimize) between the constructions"],
+    time_limit=dict(quick=600, thorough=3600))
+
+# ------------------------------------------------------------------------------------------------ C07 (narrow)
+C07_LABELS = {"seed_recorded", "seeded_before_first_draw", "reseeded_before_first_draw"}
+PROPS["C07"] = dict(
+    jobs=lambda tier: [J("h_bc:HBC", D=D, pat=_pat(D, x0=x0), spell={}, nonlinear=False, seed="sym") for D in ((1, 2) if tier == "thorough" else (1,)) for x0 in (None, ["s"] * D, ["nan"] * D)] +
+    [J("h_bc:HBC", D=2, pat=_pat(2, x0=None, lb=["-inf", "-inf"], ub=["+inf", "+inf"]), spell={}, nonlinear=False, seed="sym")] +
+    [j for j in im_jobs(tier) if j["params"].get("seed")] + pm_jobs("quick")[:4] + es_jobs("quick", cons=(None,))[:1] +
+    [j for j in ps_jobs("quick", levels=(0,), D2=False)][:2],
+    labels=C07_LABELS, required=sorted(C07_LABELS),
+    bounds=dict(quick="seeding protocol: constructor with a symbolic seed in [0,2] (x0 given / absent / NaN, D<=2): the seed is installed before the first draw and recorded; _init_optimization_ re-seeds before its first draw; randomness discipline: in every harness the only randomness API available to pybads code is the stubbed global NumPy generator (any other API aborts the path and the check ends inconclusive)",
+                thorough="same"),
+    outside=["bit-for-bit equality of whole runs", "everything inside gpyreg / SciPy (GP training starts, Sobol sequence)", "thread / BLAS nondeterminism", "the seed arithmetic of init_sobol (string manipulation)",
+             "module-level state of options.py (covered by C20's instance-independence obligations)"],
+    level_text="Narrow claim: the seeding protocol and the randomness discipline of pybads' own Python are decided symbolically; reproducibility of whole runs is not claimed.",
+    time_limit=dict(quick=600, thorough=1800))
+
+# ------------------------------------------------------------------------------------------------ C09 (unit level)
+def c09_jobs(tier):
+    jobs = []
+    q = tier == "quick"
+    jobs += [j for j in c12_jobs("quick") if j["params"]["D"] == 2 and j["params"]["n_filled"] in (0, 2) and (not q or j["params"]["level"] == 2)]
+    jobs += cc_jobs("quick")[:10:(3 if q else 1)] + vt_jobs("quick")[:6:(3 if q else 1)] + [j for j in sb_jobs("quick", cons=True) if "HSInit" in j["harness"]]
+    jobs += ps_jobs("quick", cons=True, D2=False)[::(9 if q else 3)] + ss_jobs(tier, cons=True) + lb_jobs("quick")[::(9 if q else 4)]
+    jobs += im_jobs(tier, cons=True) + tail_jobs(tier) + [j for j in es_jobs(tier) if not q or j["params"].get("cons") or "HHG" in j["harness"]] + rf_jobs("quick") + nb_jobs("quick")[:12:(3 if q else 1)]
+    for n in (0, 1, 2, 3):
+        for fc in (3, 30, 300):
+            jobs.append(J("h_gs:HGS", D=2, n=n, fc=fc))
+    for level in (0, 1):
+        for pred in ("fin", "nan", "inf"):
+            jobs.append(J("h_gs:HTarget", level=level, pred=pred))
+    jobs += [J("h_bc:HBC", D=1, pat=_pat(1, x0=None), spell={v: sp for v in ("lb", "ub", "plb", "pub")}, nonlinear=False) for sp in ("list", "tuple", "scalar")]
+    return jobs
+
+
+C09_LABELS = {"returned_value_is_scalar", "target_values_support_item_as_callers_require", "refit_and_calibration_flags_are_booleans", "refit_resets_statistics",
+              "linalg_failures_do_not_abort", "empty_search_set_only_without_survivors", "valid_definition_not_rejected_by_init"}
+PROPS["C09"] = dict(
+    jobs=c09_jobs, labels=C09_LABELS, required=sorted(C09_LABELS - {"valid_definition_not_rejected_by_init"}), exc_is_violation=True,
+    bounds=dict(quick="unit level: every harness of this framework is run in the modes of the statement (noise level 0/1/2, constraints on/off, affine/log) with the obligation 'no exception outside the declared set on any feasible path'; rare internal histories: empty search set, every ES candidate infeasible, merged observation under specified noise, non-finite GP prediction, 0..3 saved GP statistics, LinAlgError schedules, early stop of a noisy run",
+                thorough="thorough tiers of the component harnesses"),
+    outside=["'optimize() returns' for whole runs (unit level only)", "exceptions raised inside gpyreg / SciPy"],
+    level_text="Unit-level claim within bounds: no undeclared exception escapes any of the analysed units on any feasible path, including the rare internal histories named in the statement.",
+    time_limit=dict(quick=900, thorough=5400))
